@@ -192,6 +192,16 @@ def bounded(pb, interp, rng, tier):
             pass
         except Exception as ex_:
             fail("time_at", "outside-phase.wrong-error", inst, f"{type(ex_).__name__}: {str(ex_)[:100]}")
+        # an array with a single time outside every span raises like a scalar outside does
+        ev += 1
+        try:
+            tmix = Time(ents[1]["tmid"], format="mjd") + np.array([0.0, 0.2, -(2.5 * span)]) * u.min
+            p(tmix)
+            fail("__call__", "outside-span.accepted", inst, "array with one time before the first span")
+        except ValueError:
+            pass
+        except Exception as ex_:
+            fail("__call__", "outside-span.wrong-error", inst, f"array with one outside time: {type(ex_).__name__}")
         # arrays of times
         ev += 1
         try:
